@@ -42,6 +42,12 @@ impl<'tcx> Dumper<'tcx> {
             Res::Def(kind, did) => {
                 o.push(kv("res", J::s(format!("{:?}", kind))));
                 o.push(kv("def", J::s(defstr(self.tcx, did))));
+                if matches!(kind, rustc_hir::def::DefKind::AssocFn)
+                    && self.tcx.associated_item(did).is_method()
+                {
+                    // a method named by path (`Trait::m(recv, ..)`): same call as `recv.m(..)`
+                    o.push(kv("has_self", J::Bool(true)));
+                }
                 if let Some(args) = self.tr.node_args_opt(id) {
                     let v: Vec<J> = args
                         .iter()
